@@ -8,9 +8,10 @@
    [closest border p] the border point the code pairs with p (first argmin), [block m ss i] the sub-pixel indexes
    of slim pixel i, [bbox_centre_of g cc] cc is the centre of the bounding box of the points g,
    [shape_ok m ss] rectangular mask with an unmasked pixel and one sub-size >= 1 per unmasked pixel,
-   [sub_offset ss i] number of sub-pixels of the slim pixels before i, [sz ss i] sub-size of slim pixel i. *)
+   [sub_offset ss i] number of sub-pixels of the slim pixels before i, [sz ss i] sub-size of slim pixel i,
+   [uniform m s] the sub-size map of BorderRelocator(mask, sub_size = s): s for every unmasked pixel. *)
 From Coq Require Import Reals List.
-From PAV Require Import Base.NumOps Base.Res Model.C18 Proofs.C18 Proofs.C18idx Proofs.C18x.
+From PAV Require Import Base.NumOps Base.Res Model.C18 Proofs.C18 Proofs.C18idx Proofs.C18x Proofs.C18y.
 Import ListNotations.
 Local Open Scope R_scope.
 
@@ -179,6 +180,24 @@ Theorem C18_sub_border_farthest_in_range : forall m ss, shape_ok m ss = true ->
       (border_slim_spec m) out.
 Proof. exact sub_border_farthest_in_range. Qed.
 
+(* ---- uniform sub-size (BorderRelocator(mask, sub_size : int)): the centre the code uses (bounding box of the
+        unmasked sub-pixel centres) IS the centre of the bounding box of the unmasked pixel centres, i.e. of the
+        unmasked region (union of the unit squares about them) *)
+Theorem C18_uniform_centre_is_region_centre : forall m s, (1 <= s)%nat -> forall cc cc1,
+  bbox_centre_of (@unit_grid ROps m (uniform m s)) cc -> bbox_centre_of (@unit_grid ROps m (uniform m 1)) cc1 -> cc = cc1.
+Proof. exact uniform_centre. Qed.
+Theorem C18_sub_border_uniform : forall m s, shape_ok m (uniform m s) = true ->
+  exists out cc,
+    @sub_border_pixel_slim_indexes_from ROps m (uniform m s) = Ok out /\
+    bbox_centre_of (@unit_grid ROps m (uniform m 1)) cc /\
+    Forall2 (fun bp k =>
+        (bp < total_pixels_2d_from m)%nat /\
+        (bp * (s * s) <= k < bp * (s * s) + s * s)%nat /\
+        forall k', (bp * (s * s) <= k' < bp * (s * s) + s * s)%nat ->
+          dist (nth k' (@unit_grid ROps m (uniform m s)) (0, 0)) cc <= dist (nth k (@unit_grid ROps m (uniform m s)) (0, 0)) cc)
+      (border_slim_spec m) out.
+Proof. exact sub_border_uniform. Qed.
+
 (* ---- non-vacuity *)
 (* border <> [], a point beyond the smallest border radius (radius 3 against the unit diamond) that is really
    moved: to radius 1 *)
@@ -202,6 +221,11 @@ Example C18_shape_example :
   shape_ok [[true; false; true]; [false; false; false]; [true; false; true]] [2; 2; 2; 2; 2]%nat = true /\
   border_slim_spec [[true; false; true]; [false; false; false]; [true; false; true]] = [0; 1; 3; 4]%nat.
 Proof. exact example_shape_ok. Qed.
+
+Example C18_uniform_example :
+  shape_ok [[true; false; true]; [false; false; false]; [true; false; true]]
+           (uniform [[true; false; true]; [false; false; false]; [true; false; true]] 2) = true.
+Proof. vm_compute. reflexivity. Qed.
 
 Print Assumptions C18_length_and_order_preserved.
 Print Assumptions C18_relocation_total.
@@ -229,3 +253,5 @@ Print Assumptions C18_block_is_range.
 Print Assumptions C18_unit_grid_closed_form.
 Print Assumptions C18_sub_border_total.
 Print Assumptions C18_sub_border_farthest_in_range.
+Print Assumptions C18_uniform_centre_is_region_centre.
+Print Assumptions C18_sub_border_uniform.
